@@ -2794,73 +2794,89 @@ func checkScopeCountsReferences(c *Ctx, rule string) {
 	if fi == nil {
 		return
 	}
-	info := fi.Info()
-	// the set of names: a local map[string]struct{}
-	var set types.Object
-	ast.Inspect(fi.Decl.Body, func(m ast.Node) bool {
-		if as, ok := m.(*ast.AssignStmt); ok && as.Tok == token.DEFINE {
-			for _, l := range as.Lhs {
-				if id, ok := l.(*ast.Ident); ok && info.TypeOf(id) != nil {
-					if mt, ok := info.TypeOf(id).Underlying().(*types.Map); ok {
-						if b, ok := mt.Key().Underlying().(*types.Basic); ok && b.Kind() == types.String && set == nil {
-							set = info.ObjectOf(id)
+	c.funcs[fi.Name] = true
+	isNameSet := func(t types.Type) bool {
+		if t == nil {
+			return false
+		}
+		mt, ok := t.Underlying().(*types.Map)
+		if !ok {
+			return false
+		}
+		b, ok := mt.Key().Underlying().(*types.Basic)
+		return ok && b.Kind() == types.String
+	}
+	// CheckChangesScope and the package-local functions it calls (two levels): a store into a set of
+	// names (map keyed by string) whose key is read through ForeignKey.RefTable
+	recorded, sets := false, 0
+	seen := map[*types.Func]bool{fi.Obj: true}
+	type item struct {
+		f     *FuncInfo
+		depth int
+	}
+	work := []item{{fi, 0}}
+	for len(work) > 0 {
+		it := work[0]
+		work = work[1:]
+		info := it.f.Info()
+		body := it.f.Decl.Body
+		refAlias := map[types.Object]bool{}
+		viaRef := func(e ast.Expr) bool {
+			found := false
+			ast.Inspect(e, func(k ast.Node) bool {
+				switch x := k.(type) {
+				case *ast.SelectorExpr:
+					if x.Sel.Name == "RefTable" && typeIs(derefType(info.TypeOf(x.X)), pSchema, "ForeignKey") {
+						found = true
+					}
+				case *ast.Ident:
+					if refAlias[info.ObjectOf(x)] {
+						found = true
+					}
+				}
+				return !found
+			})
+			return found
+		}
+		ast.Inspect(body, func(m ast.Node) bool {
+			if as, ok := m.(*ast.AssignStmt); ok && len(as.Lhs) == len(as.Rhs) {
+				for i, l := range as.Lhs {
+					if id, ok := l.(*ast.Ident); ok && info.TypeOf(id) != nil && typeIs(derefType(info.TypeOf(id)), pSchema, "Table") && viaRef(as.Rhs[i]) {
+						refAlias[info.ObjectOf(id)] = true
+					}
+				}
+			}
+			return true
+		})
+		ast.Inspect(body, func(m ast.Node) bool {
+			switch x := m.(type) {
+			case *ast.AssignStmt:
+				for _, l := range x.Lhs {
+					ix, ok := ast.Unparen(l).(*ast.IndexExpr)
+					if !ok || !isNameSet(info.TypeOf(ix.X)) {
+						continue
+					}
+					sets++
+					if viaRef(ix.Index) {
+						recorded = true
+					}
+				}
+			case *ast.CallExpr:
+				if it.depth < 2 {
+					if fn := calleeOf(info, x); fn != nil && fn.Pkg() != nil && fn.Pkg().Path() == pSqlx && !seen[fn] {
+						seen[fn] = true
+						if hf := c.FuncInfoOf(fn); hf != nil && hf.Decl.Body != nil {
+							work = append(work, item{hf, it.depth + 1})
 						}
 					}
 				}
 			}
-		}
-		return true
-	})
-	if set == nil {
-		c.Unresolved(rule, "CheckChangesScope: the set of schema names")
+			return true
+		})
+	}
+	if sets == 0 {
+		c.Unresolved(rule, "CheckChangesScope: stores into the set of schema names")
 		return
 	}
-	c.funcs[fi.Name] = true
-	// aliases of a referenced table: locals defined from <fk>.RefTable
-	refAlias := map[types.Object]bool{}
-	viaRef := func(e ast.Expr) bool {
-		found := false
-		ast.Inspect(e, func(k ast.Node) bool {
-			switch x := k.(type) {
-			case *ast.SelectorExpr:
-				if x.Sel.Name == "RefTable" && typeIs(derefType(info.TypeOf(x.X)), pSchema, "ForeignKey") {
-					found = true
-				}
-			case *ast.Ident:
-				if refAlias[info.ObjectOf(x)] {
-					found = true
-				}
-			}
-			return !found
-		})
-		return found
-	}
-	ast.Inspect(fi.Decl.Body, func(m ast.Node) bool {
-		if as, ok := m.(*ast.AssignStmt); ok && len(as.Lhs) == len(as.Rhs) {
-			for i, l := range as.Lhs {
-				if id, ok := l.(*ast.Ident); ok && info.TypeOf(id) != nil && typeIs(derefType(info.TypeOf(id)), pSchema, "Table") && viaRef(as.Rhs[i]) {
-					refAlias[info.ObjectOf(id)] = true
-				}
-			}
-		}
-		return true
-	})
-	recorded := false
-	ast.Inspect(fi.Decl.Body, func(m ast.Node) bool {
-		as, ok := m.(*ast.AssignStmt)
-		if !ok {
-			return true
-		}
-		for _, l := range as.Lhs {
-			ix, ok := ast.Unparen(l).(*ast.IndexExpr)
-			if !ok {
-				continue
-			}
-			if id, ok := ast.Unparen(ix.X).(*ast.Ident); ok && info.ObjectOf(id) == set && viaRef(ix.Index) {
-				recorded = true
-			}
-		}
-		return true
-	})
 	c.Check(rule, "sqlx.CheckChangesScope|the schemas of referenced tables are counted", fi.Decl.Pos(), recorded, "CheckChangesScope never records the schema of a table reached through ForeignKey.RefTable: a table whose foreign key points into another schema passes the one-schema check, and under the empty qualifier the reference is printed without its schema, i.e. re-homed to the connected schema")
 }
